@@ -14,6 +14,7 @@ import (
 	"runtime"
 	"runtime/debug"
 	"strings"
+	"syscall"
 	"time"
 
 	"github.com/elk-language/elk"
@@ -332,8 +333,15 @@ func main() {
 		env.ELKPATH = "/repo"
 	}
 	color.NoColor = true
+	// the protocol stream is a duplicate of the original stdout; file descriptor 1 itself is pointed at
+	// /dev/null, because package-level objects of the VM (the default thread pool) captured os.Stdout at
+	// init time and their threads would otherwise print program output into the protocol
 	out := os.Stdout
 	devnull, _ := os.OpenFile(os.DevNull, os.O_WRONLY, 0)
+	if fd, err := syscall.Dup(1); err == nil {
+		out = os.NewFile(uintptr(fd), "protocol")
+		_ = syscall.Dup2(int(devnull.Fd()), 1)
+	}
 	os.Stdout = devnull
 	rd := bufio.NewReaderSize(os.Stdin, 1<<20)
 	w := bufio.NewWriter(out)
